@@ -10,9 +10,11 @@
    proposed types are none, `int`, or exactly the type entries of the global table; (4) outside
    every declaration the answer is the declaration starters, with the main snippet iff `main` is
    not a procedure of the table.
+   (5) under the executable tree well-formedness predicate [compl_wf_b] the handler never panics.
    NOT proved (validated by correspondence + oracle only): WHICH of the alternatives is taken at
    which syntactic position (the position classifier), that the local table of a procedure holds
-   exactly its parameters and variables, and freedom from panics.  The full functional statement
+   exactly its parameters and variables, and that [compl_wf_b] holds for the trees the parser builds
+   (the judge evaluates it on every request: command 51 adds 4 to its flag when it fails).  The full functional statement
    ([C16_full_statement]) is stated on the model and REFUTED by a witness of the known finding
    C16-cursor-directly-behind-token; outside the known classes it is validated by oracle only. *)
 From Spl Require Import Model.Completion Proofs.CompletionProofs.
@@ -49,6 +51,13 @@ Theorem C16_toplevel_only_starters : forall g,
   filter is_struct (new_global_declaration g) = [].
 Proof. exact toplevel_no_entries. Qed.
 Print Assumptions C16_toplevel_only_starters.
+
+(* robustness: under the executable well-formedness predicate on the tree (every global declaration and
+   every statement has a non-empty range that starts at its own Reference and lies inside its parent /
+   the token vector) no slice, index or `expect` of the handler can fire *)
+Theorem C16_no_panic : forall d line col, compl_wf_b d = true -> exists r, propose d line col = ROk r.
+Proof. exact propose_no_panic. Qed.
+Print Assumptions C16_no_panic.
 
 (* ---- the full functional statement ---- *)
 (* In a document without diagnostics (a missing `main` is tolerated), at every cursor position of one
